@@ -160,12 +160,17 @@ def delete_tables_with_prefix(sqlite_db_path: str | Path, prefix: str) -> None:
     :param prefix: Table name prefix to match
     """
     with create_sqlite_connection(sqlite_db_path) as conn:
-        cursor = conn.execute(
-            "SELECT name FROM sqlite_master WHERE type='table' AND name LIKE ?",
-            (f"{prefix}%",),
-        )
+        cursor = conn.execute("SELECT name FROM sqlite_master WHERE type='table'")
         try:
-            tables = [row[0] for row in cursor.fetchall()]
+            # A component owns exactly the tables "<prefix>_<table name>".  A LIKE 'prefix%'
+            # match is too wide: '_' is a wildcard there, and an application whose id extends
+            # this prefix has tables "<prefix>...__<component>_<table name>" that start with it
+            # as well - the component separator "__" after the prefix tells them apart.
+            tables = [
+                row[0]
+                for row in cursor.fetchall()
+                if row[0].startswith(f"{prefix}_") and "__" not in row[0][len(prefix) :]
+            ]
         finally:
             try:
                 cursor.close()
